@@ -37,6 +37,7 @@ LEVEL_TEXT = "proof"
 LEVEL_NOTE = "full statement for the modelled parser; model tied to the code by the differential stream"
 
 REL_KINDS = {"ArgumentConflict", "MissingRequiredArgument", "MissingSubcommand", "DisplayHelpOnMissingArgumentOrSubcommand"}
+VALUE_KINDS = {"ValueValidation", "InvalidValue", "InvalidUtf8"}
 FLAG_ACTIONS = ("settrue", "setfalse", "count")
 IMPLICIT_DEFAULT = {"settrue": [b"false"], "setfalse": [b"true"], "count": [b"0"]}
 
@@ -184,19 +185,6 @@ def render_argv(rng, c, p_mutate, globals_=()):
     return toks
 
 
-def strip_defaults(c):
-    """the same command without `default` / `default_value_if` declarations"""
-    d = dict(c)
-    d["args"] = []
-    for a in c["args"]:
-        b = dict(a)
-        b.pop("default", None)
-        b["difs"] = []
-        d["args"].append(b)
-    d["subs"] = [strip_defaults(s) for s in c["subs"]]
-    return d
-
-
 def gen_cases(rng, n, mode, p_mutate, per_cmd=4):
     prof = gen_cmd.Profile(**PROFILE)
     out = []
@@ -208,8 +196,7 @@ def gen_cases(rng, n, mode, p_mutate, per_cmd=4):
             if mode == "c06":
                 out.append(gen_cmd.case_sx(c, argv, mode="c06"))
             else:
-                out.append("(c06pair %s %s (argv%s))" % (gen_cmd.cmd_sx(c), gen_cmd.cmd_sx(strip_defaults(c)),
-                                                        "".join(" " + hexs(t) for t in argv)))
+                out.append(gen_cmd.case_sx(c, argv, mode="c06pair"))
     return out[:n]
 
 
@@ -279,8 +266,6 @@ def directed_cases():
 # ====================================================================== decoding
 def decode(case):
     sx = sx_parse(case)
-    if sx[0] == "c06pair":
-        return cmd_of_sx(sx[1][1:]), cmd_of_sx(sx[2][1:]), [unhex(t) for t in sx[3][1:]]
     return cmd_of_sx(sx[1][1:]), None, [unhex(t) for t in sx[2][1:]]
 
 
@@ -592,19 +577,22 @@ def pair_oracle(case, impl):
         return None
     ka = pa.get("ekind") if pa["kind"] == "err" else None
     kb = pb.get("ekind") if pb["kind"] == "err" else None
+    # The only thing default declarations may add is a rejection of a *default value* by the value parser
+    # while the defaults phase of some level runs (a deeper level's defaults phase runs before the
+    # environment phase and the validation of its parents).
     if kb is not None and kb not in REL_KINDS:
-        # rejected before the defaults phase: the defaults cannot matter
-        if ka != kb:
-            return "without defaults the line is rejected with %s (before defaults apply); with defaults: %s" % (kb, ka or "Ok")
+        # rejected while reading the command line / environment: defaults cannot repair that
+        if ka is None or (ka != kb and ka not in VALUE_KINDS):
+            return "without defaults the line is rejected with %s (command line / environment); with defaults: %s" % (kb, ka or "Ok")
         return None
     if kb in REL_KINDS:
         if ka is None:
             return "declaring defaults turned a %s rejection into Ok: a default satisfied or suppressed a relation" % kb
-        if ka in REL_KINDS and ka != kb:
+        if ka != kb and ka not in VALUE_KINDS:
             return "declaring defaults changed the relation error from %s to %s" % (kb, ka)
         return None
     # kb is None: accepted without defaults
-    if ka in REL_KINDS:
+    if ka is not None and ka not in VALUE_KINDS:
         return "declaring defaults turned Ok into %s: a value that came from a default triggered a relation" % ka
     if ka is None:
         # explicit entries (ids, sources, values) are the same with and without defaults
